@@ -461,6 +461,14 @@ package board
 //@   allow-extern fmt. errors.
 //@   nopanic
 //@
+//@ # ParseFEN starts from an all-zero board, so nothing of a re-used board's previous content (rights,
+//@ # e.p. target, counters, placement, history) can survive into the parsed position
+//@ func ParseFEN
+//@   props C11
+//@   allow-extern fmt. errors.
+//@   at-call seq requires [fresh] b.EnPassant == 0 && b.Castles == 0 && b.STM == 0 && b.FiftyCnt == 0 && b.fullMoves == 0 && all(k, 0, 6, b.Pieces[k] == 0) && b.Colors[0] == 0 && b.Colors[1] == 0 && all(i, 0, 63, b.SquaresToPiece[i] == 0) && len(b.hashes) == 0
+//@   nopanic
+//@
 //@ func (*fenParser).seq
 //@   props C11
 //@   requires fpOK(fp) && fp.ix <= fp.l
